@@ -162,6 +162,28 @@ theorem typedef_modifiers_survive_use_site_modifiers {sh : Shape} {layers : List
     m.flag f = true :=
   (declared_modifier_is_union_of_layers h f).mpr (Or.inl ⟨l, hl, hf⟩)
 
+/-- the declaration positions add nothing to the type: where `declModsAt` accepts, the declared modifier is `declMods`'s -/
+theorem declModsAt_ok {sh : Shape} {layers : List (List Kw)} {use : List Kw} {pos : Pos} {m : Mods}
+    (h : declModsAt sh layers use pos = .ok m) : declMods sh layers use pos = .ok m := by
+  simp only [declModsAt] at h
+  split at h
+  · cases h
+  · split at h
+    · cases h
+    · cases h; assumption
+
+/-- a struct member is const only through its type: `const` written on the member itself is refused -/
+theorem struct_member_const_comes_from_the_type {sh : Shape} {layers : List (List Kw)} {use : List Kw} {m : Mods}
+    (h : declModsAt sh layers use .structMember = .ok m) : m.isConst = true ↔ ∃ l ∈ layers, Kw.const ∈ l := by
+  have hu : Kw.const ∉ use := by
+    intro hc
+    simp only [declModsAt] at h
+    split at h
+    · cases h
+    · simp [hc] at h
+  rw [typedef_const_survives_use_site_modifiers (declModsAt_ok h)]
+  simp [hu]
+
 /-! ## the conflict checks (fix 8a3a2d4): an accepted declaration never has both orders / both normalisations -/
 
 def Consistent (m : Mods) : Prop := (m.rowMajor && m.columnMajor) = false ∧ (m.unorm && m.snorm) = false
